@@ -639,6 +639,52 @@ theorem shouldSave_of_table (hist : List Name) (t : Name) (nk : Option Name) (h 
     shouldSave hist t nk = true := by
   simp [shouldSave, h]
 
+/-! ### which just_once rows a continued run re-saves (fix 5da9efa) -/
+
+/-- **Every persistent row known by a nickname** whose table is history-backed is re-saved, under
+    that nickname. -/
+theorem resave_covers_nicknamed (pn : List (Name × Name × Nat)) (pt : List (Name × Nat))
+    (hist : List Name) (n t : Name) (i : Nat) (h : (n, t, i) ∈ pn) (ht : t ∈ hist) :
+    (t, some n, i) ∈ resaveRows pn pt hist :=
+  Proofs.C10.mem_resaveRows.2 ⟨ht, Or.inl ⟨n, rfl, h⟩⟩
+
+/-- **Every persistent row known by its table name** whose table is history-backed is re-saved —
+    as a plain row, or already under its nickname when the *same* `(table, id)` is a nicknamed
+    persistent row.  (Before the fix a nicknamed row of *any* table with the same bare id
+    suppressed it: C05's finding D48.) -/
+theorem resave_covers_by_table (pn : List (Name × Name × Nat)) (pt : List (Name × Nat))
+    (hist : List Name) (t : Name) (i : Nat) (h : (t, i) ∈ pt) (ht : t ∈ hist) :
+    ∃ nk, (t, nk, i) ∈ resaveRows pn pt hist := by
+  by_cases hn : ∃ n, (n, t, i) ∈ pn
+  · obtain ⟨n, hn⟩ := hn
+    exact ⟨some n, resave_covers_nicknamed pn pt hist n t i hn ht⟩
+  · exact ⟨none, Proofs.C10.mem_resaveRows.2 ⟨ht, Or.inr ⟨rfl, h, fun n hm => hn ⟨n, hm⟩⟩⟩⟩
+
+/-- Nothing else is re-saved: only persistent rows of history-backed tables. -/
+theorem resave_only_persistent (pn : List (Name × Name × Nat)) (pt : List (Name × Nat))
+    (hist : List Name) (x : Name × Option Name × Nat) (h : x ∈ resaveRows pn pt hist) :
+    x.1 ∈ hist ∧ ((∃ n, x.2.1 = some n ∧ (n, x.1, x.2.2) ∈ pn) ∨ (x.2.1 = none ∧ (x.1, x.2.2) ∈ pt)) := by
+  obtain ⟨h1, h2⟩ := Proofs.C10.mem_resaveRows.1 h
+  exact ⟨h1, h2.imp id (fun h => ⟨h.1, h.2.1⟩)⟩
+
+/-- **Exactly once**: when the nicknamed persistent rows are distinct rows (one nickname per row)
+    and `persistent_objects_by_table` is a dict, no `(table, id)` is re-saved twice. -/
+theorem resave_exactly_once (pn : List (Name × Name × Nat)) (pt : List (Name × Nat)) (hist : List Name)
+    (hpn : (pn.map (fun x => (x.2.1, x.2.2))).Nodup) (hpt : pt.Nodup) :
+    ((resaveRows pn pt hist).map (fun x => (x.1, x.2.2))).Nodup :=
+  Proofs.C10.resaveRows_pairs_nodup pn pt hist hpn hpt
+
+/-- **The re-save cannot fail**: on the freshly initialised history of a continued run, saving the
+    selected rows hits neither sqlite error (`no such table`, duplicate id). -/
+theorem resave_succeeds (counters : List (Name × Nat)) (tables : List Name) (nickmap : List (Name × Name))
+    (pn : List (Name × Name × Nat)) (pt : List (Name × Nat))
+    (hpn : (pn.map (fun x => (x.2.1, x.2.2))).Nodup) (hpt : pt.Nodup) :
+    ∃ s o, step (init counters tables nickmap) (.resave (resaveRows pn pt tables)) = .ok (s, o) := by
+  obtain ⟨s', hs'⟩ := Proofs.C10.saveAll_succeeds (resaveRows pn pt tables) (init counters tables nickmap)
+    (fun x hx => (resave_only_persistent pn pt tables x hx).1)
+    (Proofs.C10.resaveRows_pairs_nodup pn pt tables hpn hpt) (by simp [init])
+  exact ⟨resetLocals s', .ok, by simp [step, hs']⟩
+
 /-! ### non-vacuity -/
 
 example : ContiguousSaves (okOr d07Init (run d07Init [.resave [], .save "T" none 1, .save "T" (some "n") 2, .reset,
@@ -662,6 +708,9 @@ example : pickRange (okOr d41Init (run d41Init d41Ops)) "n" .current
 example : pick (okOr d41Init (run d41Init d41Ops)) "n" .current 2 = .ok ("T", 4) := by decide
 example : pick (okOr d07Init (run d07Init [.save "T" none 1, .save "T" (some "n") 2, .reset,
     .save "T" (some "n") 3])) "n" .current 2 = .ok ("T", 3) := by decide
+/-- the D48 scenario: `J(1)` known by nickname `j`, `Q(1)` known by its table name — both re-saved -/
+example : resaveRows [("j", "J", 1)] [("J", 1), ("Q", 1), ("Z", 1)] ["J", "Q"]
+    = [("J", some "j", 1), ("Q", none, 1)] := by decide
 example : ExtReqs 1 1 [(1, 2), (1, 2), (1, 4)] := by simp [ExtReqs]
 example : CompatReqs 1 3 [(1, 3), (1, 5), (6, 8), (6, 9), (10, 10)] := by simp [CompatReqs]
 example : changes none [some 1, some 1, some 2, none, none] = [true, false, true, true, false] := by decide
